@@ -8,8 +8,14 @@ import eqlgen as G
 from core import Case
 
 PID = "C02"
-LEAN_MODULES = ["KrroodVerif.Props.C02"]
-THEOREMS: list = []
+LEAN_MODULES = ["KrroodVerif.Props.C02", "KrroodVerif.Props.C01"]
+THEOREMS = [
+    "KrroodVerif.Eql.C02_multiplicity",
+    "KrroodVerif.Eql.C02_the",
+    "KrroodVerif.Eql.C02_cex_falsyBound",
+    "KrroodVerif.Eql.C01_cover",
+    "KrroodVerif.Eql.eval_total",
+]
 MODEL_FUNCTION = "Eql.evalQuery / Eql.eval (Model/Eql.lean) on the NNF conjunctive/else-if fragment"
 TRUSTED = [
     "Lean 4.33 kernel; axioms of each theorem listed under coverage.theorems",
